@@ -221,6 +221,10 @@ class Ops(object):
             return self.native_call(fn, (a, b))
         if name == "mul" and isinstance(b, (list, tuple, str, bytes)) and isinstance(a, int):
             return self.native_call(fn, (a, b))
+        if name == "mul" and isinstance(a, bytes) and isinstance(b, SymInt):
+            return RepBytes(a, b)
+        if name == "mul" and isinstance(b, bytes) and isinstance(a, SymInt):
+            return RepBytes(b, a)
         if name == "add" and type(a) in (list, tuple) and type(b) is type(a):
             return a + b
         if inplace and name == "add" and type(a) is list:
@@ -791,6 +795,8 @@ class Ops(object):
             return len(v)
         if isinstance(v, SymRange):
             return Max(0, mk_int("sub", v.stop, v.start))
+        if isinstance(v, RepBytes):
+            return v.sym_len()
         if self.hooks is not None:
             r = self.hooks.length(self, v)
             if r is not None:
@@ -1016,6 +1022,8 @@ class Ops(object):
         except TypeError:
             model = None
         if isinstance(f, types.FunctionType):
+            if f.__module__ in ("logging", "warnings"):
+                return None       # log.debug/info/warning, warnings.warn: dropped after argument evaluation (DESIGN 3.1)
             if f in _total_ordering_fns:
                 return _TO_MAP[f.__name__](self, args[0], args[1])
             if model is not None:
@@ -1376,6 +1384,19 @@ class SymFloat(object):
 
     def __init__(self, a, b):
         self.a, self.b = a, b
+
+
+class RepBytes(object):
+    """bytes object `unit * count` with a symbolic count: only its length and unit are known"""
+
+    def __init__(self, unit, count):
+        self.unit, self.count = unit, count
+
+    def __len__(self):
+        raise TypeError("symbolic length")
+
+    def sym_len(self):
+        return mk_int("mul", len(self.unit), Max(0, self.count))
 
 
 class _BoundCls(object):
